@@ -58,6 +58,9 @@ def explains(entry, prop, failure, case):
     anyt = m.get("tags_any")
     if anyt and not any(t in tags for t in anyt):
         return False
+    anyt2 = m.get("tags_any2")
+    if anyt2 and not any(t in tags for t in anyt2):
+        return False
     for t in m.get("tags_none", []):
         if t in tags:
             return False
